@@ -771,3 +771,11 @@ package table
 //@   loop 0 step len(pathList) == header(len(pathList)) + (called(Clone) ? 1 : 0)
 //@   loop 0 step p.IsStale() ==> called(Clone)
 //@   at-return requires !ret0 && __iter + 1 >= len(d.knownPathList)
+
+// from C17 "every ... VRF change triggers exactly the ... withdrawals needed": deleting a VRF hands back the
+// withdrawals of its routes in every configuration - the route-target-constraint table is only consulted when the
+// global RIB has one (a RIB configured without the rtc family has none)
+//@ props C17
+//@ func (*TableManager).DeleteVrf
+//@   claims at-call
+//@   at-call ^rtcTable.deleteRTCPathsByVrf( requires arg0 != nil
